@@ -430,3 +430,49 @@ class C08(c01.C01):
 
 
 PROPERTY = C08
+
+
+# ---------------------------------------------------------------------------------------------
+# Second tie for "cancellation hits only its target" (appended; harness/gen_ast_cancel.py on top of
+# harness/gen_ast.py, coq/Base/PyMini.v, Proofs/AstCancelEquiv.v): the SOURCE TEXT of
+# JsonRPCProtocol._handle_cancel_notification is translated on every run by the fail-closed AST translator into a
+# deep embedding, and the kernel re-checks, for ALL in-flight tables (PyMini dicts id -> truthy future token) and ALL
+# message id values, that the resulting _request_futures is the table with exactly that key deleted (unchanged when
+# absent), that every other attribute is unchanged, and that the appended effects are exactly one cancel on the
+# future stored under that id (none when absent); every other key still maps to the same future.
+# Imported late ("Module::theorem") so that a broken translator tie does not hide the other obligations.
+import gen_ast_cancel as _gen_ast_cancel
+
+C08.obligations = list(C08.obligations) + ["Proofs.AstCancelEquiv::" + n for n in (
+    "ast_handle_cancel_equiv", "ast_cancel_other_entries_untouched", "ast_cancel_other_int_entries_untouched",
+    "tbl_get_assoc", "tbl_del_assoc", "ast_cancel_example")]
+C08.coq_targets = list(C08.coq_targets) + ["Proofs/AstCancelEquiv.vo"]
+C08.trusted_base = list(C08.trusted_base) + [
+    "translator tie: harness/gen_ast.py + harness/gen_ast_cancel.py (Python ast -> PyMini, fail-closed; the "
+    "normalisations of gen_ast_cancel.py: `x = self._request_futures.pop(k, None)` (x a local bound once, k a "
+    "parameter never rebound) read as `x = self._request_futures.get(k, None)` followed by the statement "
+    "`self._request_futures.pop(k, None)` (dict.pop against dict.get checked by reflection), `if x.cancel(): <logger "
+    "calls only>` recorded as the call $method.cancel [x] after checking that the guarded body consists of "
+    "logger.debug/info/warning/error calls on constants and plain names) and the PyMini semantics coq/Base/PyMini.v "
+    "(dict.get / dict pop-with-default with keys compared by ==, `not`, early return; logger calls observe nothing; "
+    "future.cancel is recorded and returns normally); the theorem is stated for tables whose futures are truthy "
+    "values (asyncio / concurrent futures define neither __bool__ nor __len__); its specification tbl_get / tbl_del is "
+    "self-contained and related to Assoc.get / Assoc.remove (the operations Model/Endpoint.v's cancel_notification "
+    "uses) by tbl_get_assoc / tbl_del_assoc"]
+_prev_regenerate_ast = getattr(C08, "regenerate", None)
+
+
+def _regenerate_ast(self, chk):
+    try:
+        if _prev_regenerate_ast is not None:
+            _prev_regenerate_ast(self, chk)
+    finally:
+        core.coq_make(["Props/C08.vo", "Extract/ExtractC08.vo"])     # the differential side first
+        with core._Lock("coq"):                                      # coq/Gen is shared
+            try:
+                _gen_ast_cancel.gen_cancel()
+            finally:
+                core._coq_make(["Proofs/AstCancelEquiv.vo"])
+
+
+C08.regenerate = _regenerate_ast
